@@ -1,0 +1,67 @@
+//go:build verif
+
+package compiler
+
+import (
+	"bytes"
+	"go/token"
+	"go/types"
+
+	"github.com/gopherjs/gopherjs/compiler/internal/analysis"
+	"github.com/gopherjs/gopherjs/compiler/internal/typeparams"
+	"github.com/gopherjs/gopherjs/compiler/sources"
+	"github.com/gopherjs/gopherjs/internal/sourcemapx"
+)
+
+// Verification hooks: compiled only with the "verif" build tag. They expose
+// unexported functions unchanged; no existing code is modified.
+
+// VerifRemoveWhitespace is removeWhitespace.
+func VerifRemoveWhitespace(b []byte, minify bool) []byte { return removeWhitespace(b, minify) }
+
+// VerifEncodeString is encodeString.
+func VerifEncodeString(s string) string { return encodeString(s) }
+
+// VerifScope wraps a real funcContext so that the identifier allocator
+// (newVariable) can be driven directly.
+type VerifScope struct{ fc *funcContext }
+
+// VerifNewRootScope creates a package-level context with the real newRootCtx.
+func VerifNewRootScope(minify bool) *VerifScope {
+	srcs := &sources.Sources{TypeInfo: &analysis.Info{}, FileSet: token.NewFileSet()}
+	return &VerifScope{fc: newRootCtx(types.NewContext(), srcs, minify)}
+}
+
+// Child creates a nested function context with the real nestedFunctionContext.
+func (s *VerifScope) Child() *VerifScope {
+	sig := types.NewSignatureType(nil, nil, nil, nil, nil, false)
+	fn := types.NewFunc(token.NoPos, nil, "f", sig)
+	return &VerifScope{fc: s.fc.nestedFunctionContext(&analysis.FuncInfo{}, typeparams.Instance{Object: fn})}
+}
+
+// NewVariable is funcContext.newVariable.
+func (s *VerifScope) NewVariable(name string, pkgLevel bool) string {
+	return s.fc.newVariable(name, pkgLevel)
+}
+
+// VerifReserved reports whether name is one of the reserved words the allocator must avoid.
+func VerifReserved(name string) bool { return reservedKeywords[name] }
+
+// VerifPosHint returns the encoded source-map hint for a position.
+func VerifPosHint(pos token.Pos) []byte {
+	h := sourcemapx.Hint{}
+	if err := h.Pack(pos); err != nil {
+		panic(err)
+	}
+	buf := &bytes.Buffer{}
+	if _, err := h.WriteTo(buf); err != nil {
+		panic(err)
+	}
+	return buf.Bytes()
+}
+
+// VerifIdentHint returns the encoded source-map hint for an identifier.
+func VerifIdentHint(name, originalName string, pos token.Pos) []byte {
+	id := sourcemapx.Identifier{Name: name, OriginalName: originalName, OriginalPos: pos}
+	return []byte(id.EncodeHint())
+}
